@@ -536,19 +536,15 @@ Proof. intros H. unfold add_response_headers. apply Z.ltb_lt in H. now rewrite H
 (* ------------------------------------------------------------------ *)
 (** * HTTPProxy.ServeHTTP: what reaches the upstream *)
 
-Definition req_after_rewrite (cfg : config) (t : target) (uuid : str) (r : request) : request :=
-  {| r_peer := r_peer r; r_host := rewritten_host t (r_host r); r_tls := r_tls r; r_proto := r_proto r;
-     r_hdr := cset (negb (sempty (c_reqid cfg))) (r_hdr r) (canon_key (c_reqid cfg)) uuid |}.
-
 Lemma serve_inv cfg t uuid r up sts :
   serve cfg t uuid r = Ok (up, sts) ->
   exists peer h, r_peer r = Some peer /\
-    add_headers cfg (t_strip t) (req_after_rewrite cfg t uuid r) = Ok h /\
+    add_headers cfg (t_strip t) (req_with_reqid cfg uuid r) = Ok h /\
     up = (if takes_ws_path h then wire h else rp_out peer h) /\
     sts = add_response_headers cfg (is_tls r).
 Proof.
-  unfold serve. fold (req_after_rewrite cfg t uuid r).
-  destruct (add_headers cfg (t_strip t) (req_after_rewrite cfg t uuid r)) as [h| |]; cbn [bind]; try discriminate.
+  unfold serve.
+  destruct (add_headers cfg (t_strip t) (req_with_reqid cfg uuid r)) as [h| |]; cbn [bind]; try discriminate.
   destruct (r_peer r) as [peer|]; [|discriminate].
   intros H. inversion H. exists peer, h. auto.
 Qed.
@@ -645,9 +641,9 @@ Proof.
   intros S P W T1 C2 T2 R2.
   apply serve_inv in S as (peer' & h & P' & A & -> & _).
   assert (peer' = peer) by congruence. subst peer'.
-  apply add_headers_ok in A as (peer' & P'' & ->). cbn [req_after_rewrite r_peer] in P''.
+  apply add_headers_ok in A as (peer' & P'' & ->). cbn [req_with_reqid r_peer] in P''.
   assert (peer' = peer) by congruence. subst peer'.
-  set (r' := req_after_rewrite cfg t uuid r) in *.
+  set (r' := req_with_reqid cfg uuid r) in *.
   set (h0 := r_hdr r').
   assert (W0 : wf_hdr h0 = true) by (apply wf_cset; exact W).
   assert (Wh : wf_hdr (upto9 cfg (t_strip t) r' peer h0) = true) by (now apply wf_upto9).
@@ -674,7 +670,7 @@ Qed.
 Theorem serve_preserves cfg t uuid r up sts k :
   serve cfg t uuid r = Ok (up, sts) -> wf_hdr (r_hdr r) = true ->
   exists peer h, r_peer r = Some peer /\
-    add_headers cfg (t_strip t) (req_after_rewrite cfg t uuid r) = Ok h /\
+    add_headers cfg (t_strip t) (req_with_reqid cfg uuid r) = Ok h /\
     (k <> K_XFF -> mem k hop_headers = false ->
      (takes_ws_path h = true \/ forall x, In x (conn_tokens h) -> canon_key x <> k) ->
      hfind up k = hfind h k).
@@ -683,7 +679,7 @@ Proof.
   exists peer, h. split; [exact P|]. split; [exact A|].
   intros N Hp D.
   apply add_headers_ok in A as (peer' & _ & ->).
-  set (r' := req_after_rewrite cfg t uuid r) in *.
+  set (r' := req_with_reqid cfg uuid r) in *.
   assert (Wh : wf_hdr (upto9 cfg (t_strip t) r' peer' (r_hdr r')) = true).
   { apply wf_upto9. apply wf_cset. exact W. }
   destruct (takes_ws_path _) eqn:WS.
@@ -700,8 +696,8 @@ Proof.
 Qed.
 
 (* ------------------------------------------------------------------ *)
-(** * Refutations: concrete witnesses inside the finding regions (three open ones on the
-    current code; F-C08-2 on the definitions as they were before the repair afbb806) *)
+(** * Refutations: concrete witnesses inside the finding regions (two open ones on the
+    current code; F-C08-1 / F-C08-2 on the definitions as they were before the repairs 7dd13e1 / afbb806) *)
 Definition ex_cfg : config :=
   {| c_clientip := bs "X-Client-Ip"; c_tlsheader := bs "X-Tls"; c_tlsvalue := bs "true"; c_localip := [];
      c_reqid := []; c_sts_maxage := 31536000%Z; c_sts_sub := false; c_sts_preload := false |}.
@@ -716,11 +712,12 @@ Definition ex_tgt (hostopt : str) : target :=
 
 Ltac witness := repeat (split; [vm_compute; reflexivity|]); vm_compute; reflexivity.
 
-(* F-C08-1: host= option; the client asked for example.com on port 80 *)
+(* F-C08-1 (REPAIRED in /repo by 7dd13e1): host= option; the client asked for example.com on
+   port 80; on the code as it was before the repair ([serve_host_first_unrepaired]) *)
 Theorem xfh_after_host_rewrite_refuted :
   exists cfg t uuid r up sts,
     cfg_sane cfg = true /\ wf_hdr (r_hdr r) = true /\
-    serve cfg t uuid r = Ok (up, sts) /\
+    serve_host_first_unrepaired cfg t uuid r = Ok (up, sts) /\
     hget (r_hdr r) K_XFH = [] /\ hget (r_hdr r) K_XFPORT = [] /\
     F_host_rewrite t (r_host r) = true /\
     hfind up K_XFH = Some [bs "backend.internal:8500"] /\ hfind up K_XFPORT = Some [bs "8500"] /\
@@ -729,6 +726,18 @@ Proof.
   exists ex_cfg, (ex_tgt (bs "backend.internal:8500")), [], (ex_req None [(bs "Accept", [bs "*/*"])]).
   eexists. eexists. witness.
 Qed.
+
+(* ... and the same request on the current code: the forwarding headers describe the client's
+   Host, the upstream still receives the option's value as Host *)
+Example xfh_after_host_rewrite_repaired :
+  let t := ex_tgt (bs "backend.internal:8500") in
+  let r := ex_req None [(bs "Accept", [bs "*/*"])] in
+  exists up sts,
+    serve ex_cfg t [] r = Ok (up, sts) /\ F_host_rewrite t (r_host r) = true /\
+    hfind up K_XFH = Some [bs "example.com"] /\ hfind up K_XFPORT = Some [bs "80"] /\
+    cl_host (r_host r) up = true /\ cl_port (r_host r) (is_tls r) up = true /\
+    upstream_host ex_cfg t [] r = Ok (bs "backend.internal:8500").
+Proof. cbv zeta. eexists. eexists. witness. Qed.
 
 (* F-C08-2 (REPAIRED in /repo by afbb806): Upgrade: Websocket with a forged X-Forwarded-For,
    on the code as it was before the repair ([serve_unrepaired]) *)
@@ -796,9 +805,9 @@ Example clauses_nonvacuous :
               (bs "X-Tls", [bs "true"]); (K_XRI, [[]; bs "6.6.6.6"]); (K_CONN, [bs "keep-alive, X-Forwarded-For"])] in
   let r := ex_req None hdr in
   exists up sts,
-    cfg_sane ex_cfg = true /\ wf_hdr hdr = true /\ no_region ex_cfg (ex_tgt []) hdr (r_host r) = true /\
+    cfg_sane ex_cfg = true /\ wf_hdr hdr = true /\ no_region ex_cfg hdr = true /\
     serve ex_cfg (ex_tgt []) [] r = Ok (up, sts) /\
-    all_hold (clauses ex_cfg hdr ex_peer (r_host r) false false true up) = true /\
+    all_hold (clauses ex_cfg hdr ex_peer (r_host r) false true up) = true /\
     hfind up K_XFF = Some [bs "1.2.3.4"] /\ hfind up (bs "X-Client-Ip") = Some [ex_peer] /\
     hfind up (bs "X-Tls") = None /\ hfind up K_XRI = Some [ex_peer].
 Proof. cbv zeta. eexists. eexists. witness. Qed.
@@ -901,30 +910,27 @@ Section OnDomain.
   Variables (cfg : config) (t : target) (uuid : str) (r : request) (peer : str) (up : hmap) (sts : option str).
   Hypothesis SANE : cfg_sane cfg = true.
   Hypothesis WF : wf_hdr (r_hdr r) = true.
-  Hypothesis NR : no_region cfg t (r_hdr r) (r_host r) = true.
+  Hypothesis NR : no_region cfg (r_hdr r) = true.
   Hypothesis SV : serve cfg t uuid r = Ok (up, sts).
   Hypothesis PE : r_peer r = Some peer.
 
   Let hdr := r_hdr r.
-  Let r' := req_after_rewrite cfg t uuid r.
+  Let r' := req_with_reqid cfg uuid r.
   Let SF := cfg_sane_facts cfg SANE.
 
   Lemma od_regions :
-    rewritten_host t (r_host r) = r_host r /\
     F_cih_xrealip_forged cfg hdr = false /\
     forall k, In k [canon_key (c_clientip cfg); canon_key (c_tlsheader cfg); K_XRI; K_XFP; K_XFPORT; K_XFH; K_FWD] ->
               F_conn_lists hdr k = false.
   Proof.
     unfold no_region in NR. fold hdr in NR.
-    apply andb_true_iff in NR as [N1 N4]. apply andb_true_iff in N1 as [N1 N3].
-    apply negb_true_iff in N1, N3, N4.
-    split; [|split; [exact N3|]].
-    - unfold F_host_rewrite in N1. apply negb_false_iff in N1. now apply beq_eq.
-    - now apply existsb_false_forall.
+    apply andb_true_iff in NR as [N3 N4].
+    apply negb_true_iff in N3, N4.
+    split; [exact N3|]. now apply existsb_false_forall.
   Qed.
 
   Lemma od_hdr0 k : off k (c_reqid cfg) -> hfind (r_hdr r') k = hfind hdr k.
-  Proof. intros O. unfold r'. cbn [req_after_rewrite r_hdr]. now apply reqid_off. Qed.
+  Proof. intros O. unfold r'. cbn [req_with_reqid r_hdr]. now apply reqid_off. Qed.
 
   Lemma od_ctx :
     exists h, add_headers cfg (t_strip t) r' = Ok h /\
@@ -937,7 +943,7 @@ Section OnDomain.
     apply add_headers_ok in A as (peer' & _ & ->). fold r'.
     destruct SF as [C T R _ _ _].
     split; [|split].
-    - apply wf_upto9. unfold r'. cbn [req_after_rewrite r_hdr]. apply wf_cset. exact WF.
+    - apply wf_upto9. unfold r'. cbn [req_with_reqid r_hdr]. apply wf_cset. exact WF.
     - rewrite upto9_other; auto with keys.
       + apply od_hdr0. apply R. apply in_or_app. right. cbn; auto.
       + apply C. cbn; auto 10.
@@ -982,7 +988,7 @@ Section OnDomain.
   Lemma od_xri : cl_xri hdr up peer = true.
   Proof.
     destruct od_ctx as (h & A & U & Wh & HC & HU).
-    destruct SF as [C T R _ _ _]. destruct od_regions as (_ & _ & FC).
+    destruct SF as [C T R _ _ _]. destruct od_regions as (_ & FC).
     destruct od_hop_literals as (H1 & _).
     assert (E : hfind up K_XRI = hfind h K_XRI).
     { apply (od_transport h K_XRI U Wh HC HU); auto with keys. apply FC. cbn; auto. }
@@ -999,7 +1005,7 @@ Section OnDomain.
   Proof.
     destruct (sempty (c_tlsheader cfg)) eqn:ETH; [reflexivity|]. cbn [orb].
     destruct od_ctx as (h & A & U & Wh & HC & HU).
-    destruct SF as [C T R CT _ TH]. destruct od_regions as (_ & _ & FC).
+    destruct SF as [C T R CT _ TH]. destruct od_regions as (_ & FC).
     assert (NE : c_tlsheader cfg <> []) by (intros Z; rewrite Z in ETH; discriminate).
     assert (N1 : canon_key (c_tlsheader cfg) <> K_XFF).
     { destruct (T K_XFF) as [Z|Z]; [apply in_or_app; left; cbn; auto|congruence|exact Z]. }
@@ -1022,7 +1028,7 @@ Section OnDomain.
   Proof.
     destruct (fresh hdr) eqn:F; [|reflexivity]. cbn [negb orb].
     destruct od_ctx as (h & A & U & Wh & HC & HU).
-    destruct SF as [C T R _ _ _]. destruct od_regions as (_ & _ & FC).
+    destruct SF as [C T R _ _ _]. destruct od_regions as (_ & FC).
     destruct od_hop_literals as (_ & H2 & _).
     assert (E : hfind up K_XFP = hfind h K_XFP).
     { apply (od_transport h K_XFP U Wh HC HU); auto with keys. apply FC. cbn; auto. }
@@ -1038,13 +1044,13 @@ Section OnDomain.
   Proof.
     destruct (hget hdr K_XFPORT) eqn:F; [|reflexivity]. cbn [sempty negb orb].
     destruct od_ctx as (h & A & U & Wh & HC & HU).
-    destruct SF as [C T R _ _ _]. destruct od_regions as (RW & _ & FC).
+    destruct SF as [C T R _ _ _]. destruct od_regions as (_ & FC).
     destruct od_hop_literals as (_ & _ & H3 & _).
     assert (E : hfind up K_XFPORT = hfind h K_XFPORT).
     { apply (od_transport h K_XFPORT U Wh HC HU); auto with keys. apply FC. cbn; auto 10. }
     unfold cl_port. rewrite E.
     rewrite (port_truthful cfg _ r' h A).
-    - change (r_host r') with (rewritten_host t (r_host r)). rewrite RW.
+    - change (r_host r') with (r_host r).
       change (is_tls r') with (is_tls r). apply veq_eq. reflexivity.
     - rewrite (hget_eq (r_hdr r') hdr K_XFPORT); auto. apply od_hdr0. apply R. apply in_or_app. left. cbn; auto 10.
     - apply C. cbn; auto.
@@ -1056,15 +1062,15 @@ Section OnDomain.
     destruct (hget hdr K_XFH) eqn:F; [|reflexivity]. cbn [sempty negb orb].
     destruct (sempty (r_host r)) eqn:EH; [reflexivity|]. cbn [orb].
     destruct od_ctx as (h & A & U & Wh & HC & HU).
-    destruct SF as [C T R _ _ _]. destruct od_regions as (RW & _ & FC).
+    destruct SF as [C T R _ _ _]. destruct od_regions as (_ & FC).
     destruct od_hop_literals as (_ & _ & _ & H4 & _).
     assert (E : hfind up K_XFH = hfind h K_XFH).
     { apply (od_transport h K_XFH U Wh HC HU); auto with keys. apply FC. cbn; auto 10. }
     unfold cl_host. rewrite E.
     rewrite (host_truthful cfg _ r' h A).
-    - change (r_host r') with (rewritten_host t (r_host r)). rewrite RW. apply veq_eq. reflexivity.
+    - change (r_host r') with (r_host r). apply veq_eq. reflexivity.
     - rewrite (hget_eq (r_hdr r') hdr K_XFH); auto. apply od_hdr0. apply R. apply in_or_app. left. cbn; auto 10.
-    - change (r_host r') with (rewritten_host t (r_host r)). rewrite RW. intros Z; rewrite Z in EH; discriminate.
+    - change (r_host r') with (r_host r). intros Z; rewrite Z in EH; discriminate.
     - apply C. cbn; auto.
     - apply T. apply in_or_app. left. cbn; auto 10.
   Qed.
@@ -1079,7 +1085,7 @@ Section OnDomain.
     destruct (beq (canon_key (c_clientip cfg)) K_XFF) eqn:B; [rewrite od_xff; apply orb_true_r|].
     apply beq_neq in B.
     destruct od_ctx as (h & A & U & Wh & HC & HU).
-    destruct SF as [C T R CT CH _]. destruct od_regions as (_ & F3 & FC).
+    destruct SF as [C T R CT CH _]. destruct od_regions as (F3 & FC).
     assert (E : hfind up (canon_key (c_clientip cfg)) = hfind h (canon_key (c_clientip cfg))).
     { apply (od_transport h _ U Wh HC HU); auto.
       - destruct CH; [congruence|auto].
@@ -1107,7 +1113,7 @@ Section OnDomain.
   Lemma od_fwd : cl_fwd hdr peer (is_tls r) up = true.
   Proof.
     destruct od_ctx as (h & A & U & Wh & HC & HU).
-    destruct SF as [C T R _ _ _]. destruct od_regions as (_ & _ & FC).
+    destruct SF as [C T R _ _ _]. destruct od_regions as (_ & FC).
     destruct od_hop_literals as (_ & _ & _ & _ & H5).
     assert (E : hfind up K_FWD = hfind h K_FWD).
     { apply (od_transport h K_FWD U Wh HC HU); auto with keys. apply FC. cbn; auto 10. }
@@ -1138,7 +1144,7 @@ Section OnDomain.
   (* every clause of the property holds at the upstream, for every client header map and
      every sane configuration outside the four finding regions *)
   Theorem serve_clauses_on_domain :
-    all_hold (clauses cfg hdr peer (r_host r) (is_tls r) false true up) = true.
+    all_hold (clauses cfg hdr peer (r_host r) (is_tls r) true up) = true.
   Proof.
     unfold all_hold, clauses. cbn [forallb fst].
     repeat (apply andb_true_iff; split);
@@ -1156,4 +1162,20 @@ Proof.
   destruct (is_tls r && (0 <? c_sts_maxage cfg)%Z) eqn:E.
   - apply andb_true_iff in E as [-> _]. cbn [andb]. apply has_prefix_spec. eexists. unfold sts_value. reflexivity.
   - reflexivity.
+Qed.
+
+(* X-Forwarded-Host / -Port at the upstream describe the host the client asked for, WHATEVER
+   the route's host= option says (the rewrite runs after addHeaders since 7dd13e1) *)
+Theorem serve_host_port_truthful cfg t uuid r peer up sts :
+  cfg_sane cfg = true -> wf_hdr (r_hdr r) = true -> no_region cfg (r_hdr r) = true ->
+  serve cfg t uuid r = Ok (up, sts) -> r_peer r = Some peer ->
+  (hget (r_hdr r) K_XFH = [] -> r_host r <> [] -> hfind up K_XFH = Some [r_host r]) /\
+  (hget (r_hdr r) K_XFPORT = [] -> hfind up K_XFPORT = Some [local_port (r_host r) (is_tls r)]).
+Proof.
+  intros SA W NR S P. split.
+  - intros E N. pose proof (od_host cfg t uuid r peer up sts SA W NR S P) as H.
+    rewrite E in H. cbn [sempty negb orb] in H.
+    destruct (r_host r) eqn:EH; [congruence|]. cbn [sempty orb] in H. now apply veq_eq in H.
+  - intros E. pose proof (od_port cfg t uuid r peer up sts SA W NR S P) as H.
+    rewrite E in H. cbn [sempty negb orb] in H. now apply veq_eq in H.
 Qed.
